@@ -8,4 +8,5 @@ CONSTANTS
  ChunkLimit = 6
  RetryLimit = 10
  HttpRetries = 5
+ IgnoreInvalidDigest = FALSE
 INVARIANTS O1 O2 O3 BufInSync PatchShape SessPrefix HashedIsRead OnlyVerified ChunkBound
